@@ -47,6 +47,7 @@ Inductive dout :=
 | DNone | DAbort.
 
 Definition ALARM_SET := 128.
+Definition NO_ALCD := -1.
 Definition alcd (a : alarm) : Z := al_code a + (if al_set a then ALARM_SET else 0).      (* category codes are below 128 *)
 Definition all_or (ids : list id) {A} (tab : list (id * A)) : list id := match ids with [] => map fst tab | _ => ids end.
 
@@ -77,9 +78,8 @@ Definition e5d_step (t : dtab) (o : dop) : option (dtab * list (list dout)) :=
     | None => Some (t, [[DAck 1]])
     end
   | DListAlarms ids =>
-    if forallb (fun k => match rlookup k (alarms t) with Some _ => true | None => false end) ids
-    then Some (t, [[DAlarms (map (fun k => match rlookup k (alarms t) with Some a => (k, alcd a, al_text a) | None => (k, 0, ""%string) end) (all_or ids (alarms t)))]])
-    else None                                                  (* an unknown ALID in S5F5: not prescribed here *)
+    (* E5, S5F6: "a zero-length item returned for ALCD or ALTX means that value does not exist"; ALCD -1 stands for the zero-length item *)
+    Some (t, [[DAlarms (map (fun k => match rlookup k (alarms t) with Some a => (k, alcd a, al_text a) | None => (k, NO_ALCD, ""%string) end) (all_or ids (alarms t)))]])
   | DListEnabled => Some (t, [[DAlarms (map (fun p => (fst p, alcd (snd p), al_text (snd p))) (filter (fun p => al_enabled (snd p)) (alarms t)))]])
   | DSetAlarm k =>
     match rlookup k (alarms t) with
